@@ -213,3 +213,5 @@ func verifC17Tdx(rows int, withBase bool) {
 func VerifC17TdxNoBase1() { verifC17Tdx(1, false) }
 func VerifC17TdxBase1()   { verifC17Tdx(1, true) }
 func VerifC17TdxBase2()   { verifC17Tdx(2, true) }
+
+func VerifC17TdxBase3() { verifC17Tdx(3, true) }
